@@ -52,8 +52,10 @@ CLAIM = dict(
     "increments recomputed from the reported distances; Newton residual || rhs - J(x) x || and flux increment, Bregman mass residual "
     "recomputed from the iterates captured by pass-through wrappers of jacobian / l1_dissipation; only Bregman's aux/force increment is "
     "read from the history the solver wrote) and no fault.",
-    note="Not tied to a model: that jacobian / residual / _update_regularization assemble the second block row D u - c^T lambda = f (hypothesis "
-    "of newton_preserves_balance; only darcy_init is tied, in C08) - covered by the per-run mass-balance oracle. The model accepts a nan "
+    note="The hypothesis hupd of newton_preserves_balance is discharged from the model (newton_update_satisfies_hupd, "
+    "newton_model_preserves_balance, mass_row_same_in_every_iterate) and tied: the matrices the live solver assembles in its iterates "
+    "(jacobian / _update_regularization at the first, middle and last captured iterate of every run) equal darcy_init exactly outside the "
+    "diagonal flux-flux block, and darcy_init is tied to the model's assembleFull in C08. The model accepts a nan "
     "event for Newton although Newton has no NaN branch (harmless: theorems quantify over more). 1^T D = 0 is C06. same_iterate compares "
     "iterates to 1e-9 and cannot tell stationary iterates apart (then any of them is the last valid one). After a fault in the bookkeeping "
     "of a pass the convergence_history keeps the entry of the failed pass (not judged). KNOWN FINDINGS: Anderson with a numerically "
@@ -677,6 +679,26 @@ def check_run(ctx, d, cfg, cap, fault, num_iter, label):
         pk = float(abs(p[k]))
         if not pk <= 1e-10 * max(float(np.abs(p).max()), 1e-300) + 1e-300:
             ctx.fail(f"{sig0}:pressure-not-pinned", f"pressure of the reference cell is {p[k]!r}, not 0 ({label})", rp)
+    # (3b) the matrices assembled in the iterates (`jacobian(x)` / `_update_regularization(u)`) differ from `darcy_init` in the
+    # flux-flux block only: the mass-balance row (and every other off-diagonal block) is the same matrix row in every iterate
+    # (mass_row_same_in_every_iterate; darcy_init itself is tied to the model's assembleFull in C08)
+    recd = cap.get("rec", {})
+    pts = recd.get("start", []) if cfg.method == "newton" else recd.get("flux", [])
+    picks = [pts[i] for i in sorted({0, len(pts) // 2, len(pts) - 1})] if pts else []
+    for xi in picks:
+        J = call(cap["jacobian"], xi) if cfg.method == "newton" else call(lambda u_: w._update_regularization(u_)[0], xi)
+        if isinstance(J, Raised):
+            continue
+        J, A0 = J.tocsr(), w.darcy_init.tocsr()
+        same_rows = J.shape == A0.shape and (J[nf:, :] != A0[nf:, :]).nnz == 0 and (J[:nf, nf:] != A0[:nf, nf:]).nnz == 0
+        blk = J[:nf, :nf].tocoo()
+        diag_only = bool(np.all(blk.row == blk.col))
+        ctx.cov["iterate_matrices_checked"] = ctx.cov.get("iterate_matrices_checked", 0) + 1
+        if not (same_rows and diag_only):
+            ctx.fail(f"C04:{cfg.method}.iterate-matrix:differs-from-darcy_init-outside-flux-block",
+                     f"the matrix assembled in an iterate differs from darcy_init outside the (diagonal) flux-flux block: the mass-balance row "
+                     f"is not the same row in every iterate ({label})", rp)
+            break
     # (4) honest status
     met_last = n_done > 0 and ev[n_done - 1].startswith("ok1") and n_done - 1 > 1
     if converged and (faulted or cap["warned"] or not met_last):
